@@ -7,7 +7,7 @@ from props._generic import run_property, replay_with_driver
 
 LEVEL = "other"
 KEYS = ["normalize_cutoff", "_fva_step", "find_blocked_reactions"]
-FASTCC_KEYS = ["_find_sparse_mode", "_flip_coefficients"]
+FASTCC_KEYS = ["_find_sparse_mode", "_flip_coefficients", "fastcc"]
 
 
 def run(rep):
